@@ -10,6 +10,16 @@ def recipe(field_indexes, box_array):
 '''
 
 
+USER_RECIPE2 = '''
+import numpy as np
+def recipe(field_indexes, box_array):
+    """cooked_a cooked_b"""
+    a = box_array[:, :, :, 0]
+    b = box_array[:, :, :, 1]
+    return np.stack([a + b, a * 2 - b], axis=-1)
+'''
+
+
 def run_main(modname, argv):
     mod = importlib.import_module(modname)
     old = sys.argv
@@ -101,9 +111,12 @@ def whip(inp, field, out=None, dtype="float64", limit=None):
     run_main("amr_kitchen.whip.cli", argv + [inp])
 
 
-def chk2plt(chk, out=None, species=("H2", "O2", "N2"), gradp=True, reactions=False, floor=True):
+def chk2plt(chk, out=None, species=("H2", "O2", "N2"), gradp=True, reactions=False, floor=True, ref=None):
     mod = importlib.import_module("amr_kitchen.chk2plt.chk2plt")
-    mod.chk2plt(chk, species=list(species), gradp=gradp, species_reactions=reactions, floor_massfracs=floor, pltdir=out)
+    if ref is not None:
+        mod.chk2plt(chk, target_plotfile=ref, species=[], gradp=gradp, species_reactions=reactions, floor_massfracs=floor, pltdir=out)
+    else:
+        mod.chk2plt(chk, species=list(species), gradp=gradp, species_reactions=reactions, floor_massfracs=floor, pltdir=out)
 
 
 def marinate(inp):
